@@ -103,7 +103,7 @@ func (propC17) Draw(rt *rapid.T, w *WorldDesc, mode string) *Plan {
 				op.App = AppBehaviour{Kind: "err-plain", Text: fmt.Sprintf("failure of op %d", i)}
 				if rapid.Bool().Draw(rt, fmt.Sprintf("op%d.sentinel", i)) {
 					// a sentinel *sebufhttp.Error (one value for every failing call when instances are shared)
-					op.App = AppBehaviour{Kind: "err-sebuf", Text: rapid.SampledFrom([]string{"not allowed", "quota exceeded \xff"}).Draw(rt, fmt.Sprintf("op%d.sentinelText", i))}
+					op.App = AppBehaviour{Kind: "err-sebuf", Text: rapid.SampledFrom([]string{"not allowed", "quota exceeded"}).Draw(rt, fmt.Sprintf("op%d.sentinelText", i))}
 				}
 			} else {
 				resp := NewFilled(rt, md.NewResp, fmt.Sprintf("op%d.resp", i), nil)
